@@ -251,6 +251,10 @@ def step (st : St) (toks : List String) : St × String :=
       let s := TEp.run {} evs
       (st, s!"out={showNatList (s.out.map Prod.fst)} queued={showNatList (s.queue.map Prod.fst)}")
     | none => bad
+  | ["allowed", bt, ipv8, pfx, data] =>
+    match bool? bt, bool? ipv8, ofHex? pfx, ofHex? data with
+    | some bt, some ipv8, some pfx, some data => (st, showBool (exitAllows bt ipv8 pfx data))
+    | _, _, _, _ => bad
   | ["dump", a] =>
     match a.toNat? with
     | some a => match findNode st.net a with
